@@ -46,6 +46,7 @@ type ProjectRunner struct {
 	logger            pclog.PcLogger
 	waitGroup         sync.WaitGroup
 	exitCode          int
+	exitCodeOnce      sync.Once
 	projectState      *types.ProjectState
 	mainProcess       string
 	mainProcessArgs   []string
@@ -213,17 +214,23 @@ func (p *ProjectRunner) waitIfNeeded(process *types.ProcessConfig) error {
 func (p *ProjectRunner) onProcessEnd(exitCode int, procConf *types.ProcessConfig) {
 	if (exitCode != 0 && procConf.RestartPolicy.Restart == types.RestartPolicyExitOnFailure) ||
 		procConf.RestartPolicy.ExitOnEnd {
+		// the first process that brings the project down decides the exit code; the processes
+		// terminated by that shutdown must not overwrite it
+		p.exitCodeOnce.Do(func() {
+			p.exitCode = exitCode
+			verif.Obs("projexit %d", exitCode)
+		})
 		_ = p.ShutDownProject()
-		p.exitCode = exitCode
-		verif.Obs("projexit %d", exitCode)
 	}
 }
 
 func (p *ProjectRunner) onProcessSkipped(procConf *types.ProcessConfig) {
 	if procConf.RestartPolicy.ExitOnSkipped {
+		p.exitCodeOnce.Do(func() {
+			p.exitCode = 1
+			verif.Obs("projexit %d", 1)
+		})
 		_ = p.ShutDownProject()
-		p.exitCode = 1
-		verif.Obs("projexit %d", 1)
 	}
 }
 
